@@ -67,13 +67,16 @@ func (r *Registry) PushBlobChunkedResume(ctx context.Context, repoName, id strin
 		b = NewBuffer(func(b *Buffer) error {
 			r.mu.Lock()
 			defer r.mu.Unlock()
-			desc, data, _ := b.GetBlob()
+			desc, data, err := b.GetBlob()
+			if err != nil {
+				return err
+			}
 			repo.blobs[desc.Digest] = &blob{mediaType: desc.MediaType, data: data}
 			return nil
 		}, id)
 		repo.uploads[b.ID()] = b
 	}
-	b.checkStartOffset = offset
+	b.setStartOffset(offset)
 	return b, nil
 }
 
